@@ -12,11 +12,16 @@ import VerifModel.Spec.DataCoord
                                        with this encoding)
 
   cfg    = `k=v;k=v…` or `-`;  keys: times leads dates tods l lx lat lon elev obsrange (ranges `lo:hi`),
-           clim=1 (the last input is the climatology), div=1
+           clim=1 (the last input is the climatology), div=1, obsfield=<name> (`-obs`), fcstfield=<name> (`-fcst`)
   inputs = input#input…;  input = times|leads|locs|fields;  locs = id:lat:lon:elev;…
            fields = name=flat-values;…  (row-major time, lead, location)
-  reqs   = fields@input@axis@index;…   (fields `+`-separated, index `-` when not applicable)
-  reply  = T=…;L=…;X=… | req-reply | …   (req-reply: field vectors `;`-separated, or ERR)
+           names: obs fcst pit, `p@<t>` stored CDF column of threshold t, `q@<q>` stored quantile column,
+           `e@<k>` ensemble member k, anything else = an other-score field (numbers as protocol tokens)
+  reqs   = fields@input@axis@index;…   (fields `+`-separated, index `-` when not applicable; the LAST three `@`
+           separate input, axis and index, so that field names may contain `@`)
+  reply  = T=…;L=…;X=… | req-reply | …   (req-reply: field vectors `;`-separated, or ERR; DERIVED when a requested
+           CDF / quantile column is not stored by an input that has ensemble members — the code then derives it,
+           which is Model/Prob.lean's subject (C08) and outside this model)
 -/
 namespace VerifModel.Driver.Data
 open VerifModel Proto
@@ -65,6 +70,8 @@ def parseCfg? (s : String) (clim : Option Input) : Option Cfg :=
     | ["obsrange", v] => do some { c with obsRange := some (← parseRange? v) }
     | ["clim", _] => some { c with clim := clim }
     | ["div", v] => some { c with climDivide := v == "1" }
+    | ["obsfield", v] => some { c with obsField := v }
+    | ["fcstfield", v] => some { c with fcstField := v }
     | _ => none) {}
 
 def leadDay (l : XR) : XR := match l with
@@ -88,39 +95,56 @@ def selOf (D : DataS) (axis : String) (k : Nat) : Option Sel := selOfDims D.time
 
 def showCols (cols : List Vec) : String := ";".intercalate (cols.map showVec)
 
-def runReq (D : DataS) (s : String) : String :=
-  match s.splitOn "@" with
-  | [fs, i, axis, k] =>
+/-- `fields@input@axis@index`, split at the last three `@` -/
+def splitReq (s : String) : Option (String × String × String × String) :=
+  match (s.splitOn "@").reverse with
+  | k :: axis :: i :: f :: fs => some ("@".intercalate (f :: fs).reverse, i, axis, k)
+  | _ => none
+
+/-- is a requested field outside the model: a CDF / quantile column that some input does not store although it has
+ensemble members (the code derives the column from the members) -/
+def derived (inputs : List Input) (cfg : Cfg) (fields : List String) : Bool :=
+  let eff := if cfg.clim.isSome && (fields.contains "obs" || fields.contains "fcst") then "fcst" :: fields else fields
+  eff.any fun name =>
+    let stored := cfg.storedName name
+    name != "obs" && (stored.startsWith "p@" || stored.startsWith "q@") &&
+      inputs.any fun I => (I.field? stored).isNone && I.fields.any fun f => f.1.startsWith "e@"
+
+def runReq (raw : List Input) (D : DataS) (s : String) : String :=
+  match splitReq s with
+  | some (fs, i, axis, k) =>
     match i.toNat?, selOf D axis (k.toNat?.getD 0) with
     | some i, some sel =>
+      if derived raw D.cfg (fs.splitOn "+") then "DERIVED" else
       match D.getScores { fields := fs.splitOn "+", input := i, sel := sel } with
       | .ok cols => showCols cols
       | .error _ => "ERR"
     | _, _ => "ERR bad-req"
-  | _ => "ERR bad-req"
+  | none => "ERR bad-req"
 
 def runData (cfg inputs reqs : String) : Option String := do
       let ins ← (splitNE inputs "#").mapM parseInput?
       let hasClim := (splitNE (if cfg == "-" then "" else cfg) ";").any (· == "clim=1")
       let (scored, clim) := if hasClim then (ins.dropLast, ins.getLast?) else (ins, none)
       let c ← parseCfg? cfg clim
-      match Data.init scored c with
+      match Data.initF scored c with
       | .error _ => some "ERR init"
       | .ok D =>
         let head := s!"T={showVec D.times};L={showVec D.leads};X={showVec (D.locs.map (·.id))}"
-        some (" | ".intercalate (head :: (splitNE reqs ";").map (runReq D)))
+        some (" | ".intercalate (head :: (splitNE reqs ";").map (runReq ins D)))
 
 /-- one request answered by the specification -/
 def runSpecReq (scored : List Input) (c : Cfg) (d : Spec.DataCoord.Dims) (s : String) : String :=
-  match s.splitOn "@" with
-  | [fs, i, axis, k] =>
+  match splitReq s with
+  | some (fs, i, axis, k) =>
     match i.toNat?, selOfDims d.times d.leads axis (k.toNat?.getD 0) with
     | some i, some sel =>
-      match Spec.DataCoord.specScores scored c { fields := fs.splitOn "+", input := i, sel := sel } with
+      if derived (Spec.DataCoord.allInputs scored c) c (fs.splitOn "+") then "HYP" else
+      match Spec.DataCoord.specScoresF scored c { fields := fs.splitOn "+", input := i, sel := sel } with
       | .ok cols => showCols cols
       | .error _ => "ERR"
     | _, _ => "ERR bad-req"
-  | _ => "ERR bad-req"
+  | none => "ERR bad-req"
 
 /-- the specification on the encoding of the `data` op -/
 def runSpecData (cfg inputs reqs : String) : Option String := do
@@ -129,17 +153,17 @@ def runSpecData (cfg inputs reqs : String) : Option String := do
       let (scored, clim) := if hasClim then (ins.dropLast, ins.getLast?) else (ins, none)
       let c ← parseCfg? cfg clim
       if !(Spec.DataCoord.allInputs scored c).all Spec.DataCoord.wfInput then some "HYP"
-      else match Spec.DataCoord.specDims scored c with
+      else match Spec.DataCoord.specDimsF scored c with
       | none => some "ERR init"
       | some d =>
         let head := s!"T={showVec d.times};L={showVec d.leads};X={showVec d.locs}"
         some (" | ".intercalate (head :: (splitNE reqs ";").map (runSpecReq scored c d)))
 
 def parseReq? (D : DataS) (s : String) : Option Req :=
-  match s.splitOn "@" with
-  | [fs, i, axis, k] => do
+  match splitReq s with
+  | some (fs, i, axis, k) => do
       some { fields := fs.splitOn "+", input := ← i.toNat?, sel := ← selOf D axis (k.toNat?.getD 0) }
-  | _ => none
+  | none => none
 
 /-- a request HISTORY through the stateful model (both caches); stops at the first error -/
 def runHist (cfg inputs reqs : String) : Option String := do
@@ -147,7 +171,7 @@ def runHist (cfg inputs reqs : String) : Option String := do
       let hasClim := (splitNE (if cfg == "-" then "" else cfg) ";").any (· == "clim=1")
       let (scored, clim) := if hasClim then (ins.dropLast, ins.getLast?) else (ins, none)
       let c ← parseCfg? cfg clim
-      match Data.init scored c with
+      match Data.initF scored c with
       | .error _ => some "ERR init"
       | .ok D =>
         let rs ← (splitNE reqs ";").mapM (parseReq? D)
